@@ -1,7 +1,7 @@
 (* Model of `zerv version` for sources none / stdin:
    cli/version/{pipeline,zerv_draft,args/*}.rs, version/zerv/vars.rs (apply_context_overrides),
    cli/utils/template/types.rs (Template::render on literal text).  No proofs here. *)
-From ZV Require Export Bump.
+From ZV Require Export Bump Ron.
 Open Scope N_scope.
 
 Inductive source := SrcNone | SrcStdin | SrcGit.
@@ -272,7 +272,7 @@ Definition version_output (a : vargs) (stdin : option (option zerv)) (now : N) :
                    | Some p => OOk (match g_prefix a with Some p' => p' | None => [] end ++ pep_print p)
                    | None => OPanic
                    end
-    | OutZerv => OErr      (* RON text: Model/Ron.v *)
+    | OutZerv => OOk (zerv_ron z)
     end
   | OErr => OErr
   | OPanic => OPanic
